@@ -1,15 +1,18 @@
 /-
   C01 — Reverse-mode gradients are exact on arbitrary computation graphs.
 
-  Proved here (value-free half): on every well-founded graph — any fan-out, diamonds, self-products,
-  any depth — a pass enters exactly the nodes reachable from the result through tracked operands,
-  each exactly once and only after all its consumers have delivered, and touches no other gradient
-  cell.  Hence no path is dropped (every reachable node is entered, with every delivery made before
-  it is entered) and none is followed twice (each node's closure runs once on the merged delta).
-  The value half (the merged delta equals the seed-weighted sum of partial derivatives) is decided on
-  every run against the forward-mode reference `CorgiSpec.Dual.refGrad`; see DESIGN.md §8 C01.
+  `C01_backward_pathsum`: on every well-founded graph (any fan-out, diamonds, self-products, any depth;
+  data-dependent control flow only decides *which* graph was recorded) with lawful closures whose
+  per-operand contributions `Λ n i` are additive and shape-correct, a pass that completes from a clean
+  state leaves on every node `ℓ` — in particular on every tracked leaf —
+      grad'(ℓ)[j] = grad(ℓ)[j] + P root ℓ seed [j],
+  where `P` is the sum over all tracked paths from the root to `ℓ` of the composed contributions
+  (`Pf_unfold`): every path exactly once, none dropped, none counted twice.  With `Λ n i` = the
+  transpose-Jacobian of operation `n` with respect to operand `i` (C02), the right-hand side is the
+  seed-weighted sum of partial derivatives (chain rule).
+  `C01_every_path_once`: the value-free half (exactly once / consumers first / nothing else touched).
 -/
-import CorgiProofs.EngineTop
+import CorgiProofs.PathSum
 import CorgiProofs.EngineFrame
 
 set_option linter.unusedSectionVars false
@@ -17,7 +20,7 @@ set_option linter.unusedSectionVars false
 namespace Corgi
 variable {S : Type} [Add S] [Mul S] [Neg S] [Sub S] [ScalarOps S] [BEq S]
 
-theorem C01_every_path_once_partial (G : Graph S) (wf : G.WF) (lawful : G.Lawful) (fuel root : Nat)
+theorem C01_every_path_once (G : Graph S) (wf : G.WF) (lawful : G.Lawful) (fuel root : Nat)
     (hf : root < fuel) (dims : List Nat) (keep : Bool) (seed : Option (Tensor S)) (σ σ' : EState S)
     (hclean : σ.Clean) (hlog : σ.log = []) (hok : backward G fuel root dims keep seed σ = .ok σ') :
     (logN σ').Nodup ∧ (∀ m, m ∈ logN σ' ↔ Reach G root m) ∧ LogOrder G root (logN σ') ∧
@@ -27,6 +30,38 @@ theorem C01_every_path_once_partial (G : Graph S) (wf : G.WF) (lawful : G.Lawful
   intro m hm
   exact backward_frame G fuel root dims keep seed σ σ' hok m (fun hin => hm ((hc.2.2.1 m).mp hin))
 
+/-- **The gradient left on `ℓ` is the path sum of the seed** (coordinate by coordinate). -/
+theorem C01_backward_pathsum [AddLaws S] {G : Graph S} (sem : Sem G) (wf : G.WF) (lawful : G.Lawful)
+    (ℓ j fuel root : Nat) (hf : root < fuel) (dims : List Nat) (seed : Option (Tensor S)) (σ σ' : EState S)
+    (hclean : σ.Clean) (hlog : σ.log = []) (hg : ∀ g, σ.grad ℓ = some g → Shaped (sem.dimsOf ℓ) g)
+    (x : Tensor S) (hseed : seedOrOnes seed dims = .ok x) (hxs : Shaped (sem.dimsOf root) x)
+    (hok : backward G fuel root dims (sem.κ root) seed σ = .ok σ') :
+    gradVal ℓ j σ' = gradVal ℓ j σ + P sem ℓ j root x :=
+  (backward_pathsum sem ℓ j wf lawful fuel root hf dims seed σ σ' hclean hlog hg x hseed hxs hok).1
+
+/-- What the path sum is: the delta itself where the node stores its gradient, plus the path sums of
+    the contributions to every tracked stored operand — i.e. the sum over all tracked paths. -/
+theorem C01_pathsum_unfold [AddLaws S] {G : Graph S} (sem : Sem G) (wf : G.WF) (ℓ j m : Nat) (x : Tensor S) :
+    P sem ℓ j m x = (if m = ℓ ∧ stores sem m = true then coord j x.vals else zero)
+      + sumSlots sem (P sem ℓ j) m x (G.kids m) 0 := Pf_unfold sem ℓ j wf m x
+
+/-- A tracked leaf stores its gradient (`stores` is true for every node without stored operands). -/
+theorem C01_leaf_stores {G : Graph S} (sem : Sem G) (m : Nat) (h : G.kids m = []) : stores sem m = true := by
+  simp [stores, h]
+
+/-- the gradient stored afterwards has exactly the node's shape (C03 for the observed cell) -/
+theorem C01_grad_shape [AddLaws S] {G : Graph S} (sem : Sem G) (wf : G.WF) (lawful : G.Lawful)
+    (ℓ fuel root : Nat) (hf : root < fuel) (dims : List Nat) (seed : Option (Tensor S)) (σ σ' : EState S)
+    (hclean : σ.Clean) (hlog : σ.log = []) (hg : ∀ g, σ.grad ℓ = some g → Shaped (sem.dimsOf ℓ) g)
+    (x : Tensor S) (hseed : seedOrOnes seed dims = .ok x) (hxs : Shaped (sem.dimsOf root) x)
+    (hok : backward G fuel root dims (sem.κ root) seed σ = .ok σ') :
+    ∀ g, σ'.grad ℓ = some g → Shaped (sem.dimsOf ℓ) g :=
+  (backward_pathsum sem ℓ 0 wf lawful fuel root hf dims seed σ σ' hclean hlog hg x hseed hxs hok).2
+
 end Corgi
 
-#print axioms Corgi.C01_every_path_once_partial
+#print axioms Corgi.C01_every_path_once
+#print axioms Corgi.C01_backward_pathsum
+#print axioms Corgi.C01_pathsum_unfold
+#print axioms Corgi.C01_leaf_stores
+#print axioms Corgi.C01_grad_shape
